@@ -468,6 +468,44 @@ class Fn:
     def site_of_def(self, df):
         return Site(self, df["b"], df["i"])
 
+    def closure_fills(self):
+        """local -> [adapter call terminator]: iterator adapter calls (for_each, map, fold, ...) one of whose closure arguments captures
+        `&mut local`."""
+        if getattr(self, "_cfills", None) is None:
+            m = defaultdict(list)
+            defs = self.defs()
+            cl = {}     # closure value local -> set of locals it captures by &mut
+            for b, i, st in self.stmts():
+                if st["k"] == "assign" and st["rv"]["k"] == "agg" and st["rv"].get("closure") and not st["dst"]["p"]:
+                    caps = set()
+                    for o in st["rv"]["ops"]:
+                        l = op_local(o)
+                        for d in defs.get(l, ()) if l is not None else ():
+                            if d["k"] == "assign" and d["rv"]["k"] == "ref" and d["rv"].get("mut") and not d["rv"]["place"]["p"]:
+                                caps.add(d["rv"]["place"]["l"])
+                    if caps:
+                        cl[st["dst"]["l"]] = caps
+            for b, t in self.calls():
+                cal = callee_of(t)
+                if "iter" not in cal.lower() or len(t["args"]) < 2:
+                    continue
+                for a in t["args"][1:]:
+                    l = op_local(a)
+                    seen = set()
+                    while l is not None and l not in seen:
+                        seen.add(l)
+                        if l in cl:
+                            for c in cl[l]:
+                                m[c].append((b, t))
+                            break
+                        dd = defs.get(l, ())
+                        if len(dd) == 1 and dd[0]["k"] == "assign" and dd[0]["rv"]["k"] == "use":
+                            l = op_local(dd[0]["rv"]["a"])
+                        else:
+                            break
+            self._cfills = m
+        return self._cfills
+
     def mut_writes(self):
         """local -> [call terminator]: calls that receive (as their receiver) a `&mut` reference rooted in that local, directly or
         through a chain of methods returning `&mut` (entry(..).or_default().push(v)).  Used to follow values INTO containers."""
@@ -595,6 +633,12 @@ class Slice:
                     out.append(("call", wb, wt))
                     for a in wt["args"][1:]:
                         push_op(a)
+                # filled inside a closure that captures it mutably and is driven by an iterator adapter
+                # (`xs.iter().enumerate().for_each(|(i, x)| map.entry(..).or_default().push(i))`): what the closure stores comes from
+                # the elements it is called with, i.e. from the adapter's receiver
+                for (wb, wt) in self.fn.closure_fills().get(l, ()):
+                    out.append(("call", wb, wt))
+                    push_op(wt["args"][0])
             for df in defs.get(l, ()):
                 if df["partial"] and read_fields:
                     # field-sensitive: a store to `x.a` is irrelevant for a read of `x.b`
